@@ -162,6 +162,20 @@ CLAIMED["C12"] = dict(
     technique=E2 + " for control/data flow; bounded numeric sampling for the numerical clauses",
 )
 
+CLAIMED["C09"] = dict(
+    category="proof",
+    text=("Completeness argument decomposed into obligations: (1) the un-checkpointed derived state (_bias_correction2 of both preconditioner lists and of the grafting list) "
+          "is proved irrelevant on the symbolic post-state of the real code: overwritten before use when bias correction is on, equal to its constructor value otherwise "
+          "(relational obligations, all values, every path); masked lists are re-derived from the gradients (C04). (2) on seven configuration families every tensor reachable "
+          "from optimizer.state is in the saved dict, every tensor a step mutates is a parameter or saved, keys are unique, the optimizer's own dict loads, load is in place "
+          "(tensor identities kept) and restores param_groups; (3) unknown parameter keys, missing entries (also inside Kronecker-factor modules) and group mismatches raise. "
+          "Determinism of the step is C01's contract. The bitwise resume at every stop step is sampled (bounded)."),
+    design_ref="DESIGN.md §4/C09",
+    note=("save/load structure obligations are concrete executions of the real functions over configuration families; reads of non-tensor Python attributes are covered by the "
+          "object-graph scan only; bitwise resume bounded (every stop step 0..5, 7 families, seeded); C13's failure counters are not checkpointed (resume restarts the count)"),
+    technique=E2 + " for derived-state independence (relational), run-time contract evaluation of the real save/load functions for structure; bounded bitwise resume",
+)
+
 NOT_YET = "no check committed yet for this property (work in progress; see DESIGN.md for the planned contract)"
 
 
